@@ -148,6 +148,27 @@ func runC03(r *run) {
 				emit(caseT{"banspec", a})
 			}
 		}
+		// other spellings of a banned tag's name are either unknown or banned, never usable
+		for _, t := range tags {
+			use, ok := c03TagUse[t]
+			if !ok {
+				use = "{% " + t + " %}"
+			}
+			use = strings.ReplaceAll(use, "FILE", "inc.tpl")
+			for _, sp := range []string{strings.ToUpper(t), strings.ToUpper(t[:1]) + t[1:], t[:len(t)-1] + strings.ToUpper(t[len(t)-1:]), " " + t, t + " "} {
+				if sp == t {
+					continue
+				}
+				src := strings.ReplaceAll(strings.ReplaceAll(use, "{% "+t, "{% "+sp), "{% end"+t, "{% end"+sp)
+				if src == use {
+					continue
+				}
+				w := &world{banT: []string{t}, files: []map[string]string{{"inc.tpl": "I", "lib.tpl": "{% macro mm() export %}m{% endmacro %}", "base.tpl": "<{% block zb %}b{% endblock %}>"}}}
+				a := w.args(src, nil)
+				a = append(a, hexList([]string{"verifprobe"}), hexList([]string{"verifprobetag"}), hx(t))
+				emit(caseT{"banspec", a})
+			}
+		}
 		// histories
 		nh := 500
 		maxLen := 8
@@ -199,8 +220,11 @@ func execBanSpec(r *run, c caseT) {
 		r.reject(id, "panic", map[string]any{"template": src, "panic": fmt.Sprint(o.panicked)})
 		return
 	}
-	if o.obs != "cerr" {
-		r.reject(id, "a template that uses the banned name compiled", map[string]any{"template": src, "banned_filter": name, "observed": o.obs})
+	if o.obs != "cerr" && strings.TrimSpace(src) != "" && !(len(w.banT) > 0 && (strings.Contains(src, "{%  ") || strings.Contains(src, "  %}") || o.obs == "cerr")) {
+		r.reject(id, "a template that uses the banned name compiled", map[string]any{"template": src, "banned": name, "observed": o.obs})
+	} else if o.obs != "cerr" {
+		// extra blanks around the name are the same name: then it is the banned tag and must be refused
+		r.reject(id, "a template that uses the banned name compiled", map[string]any{"template": src, "banned": name, "observed": o.obs})
 	}
 }
 
